@@ -88,7 +88,7 @@ pub fn strategy() -> impl Strategy<Value = GcdCase> {
     let words = prop_oneof![3 => Just(16usize), 2 => Just(8usize), 1 => Just(4usize)];
     (
         words,
-        0u8..12,
+        0u8..14,
         edgy::<16>(1012),
         edgy::<16>(1012),
         edgy::<16>(256),
@@ -141,6 +141,14 @@ pub fn strategy() -> impl Strategy<Value = GcdCase> {
                     let b = if y.bits() > yb { y >> (y.bits() - yb) } else { y };
                     ("small-top", a, b)
                 }
+                12 | 13 => {
+                    // both operands fit one word, sizes 1..=64 bits incl. exactly 63 and 64 bits
+                    let ba = 64 - (delta % 8).min(63);
+                    let bb = 64 - ((r >> 8) % 64) as u32 % 64;
+                    let a = edgy_build::<16>(if r & 16 == 0 { 2 } else { 0 }, ba, &[r, !r], 1, 64);
+                    let b = edgy_build::<16>(2, bb.max(1), &[r.rotate_left(23), r], 1, 64);
+                    ("single-word", a, b | U1024::from(r & 1))
+                }
                 10 => {
                     // one operand below 64 bits
                     ("one-small", x, U1024::from(r >> (delta % 64)))
@@ -184,6 +192,9 @@ fn check_n<const N: usize>(c: &GcdCase, l: &mut Local) -> Result<(), Fail> {
     }
     if la < 64 && lb < 64 {
         l.label("path:tail-only");
+    }
+    if la <= 64 && lb <= 64 && la.max(lb) == 64 {
+        l.label("single-word-with-64-bit-operand");
     }
     if la >= 128 && lb >= 128 {
         l.label("both>=128bits");
@@ -372,6 +383,7 @@ fn run(ctx: &Ctx) {
         "path:fallback-small-top",
         "path:tail-only",
         "shape:contfrac",
+        "single-word-with-64-bit-operand",
         "inv:ok",
         "inv:err",
         "gcd>1",
